@@ -20,6 +20,9 @@ def Bytes.lt : Bytes → Bytes → Bool
 `% 2^64` (`wrap64`) so that wrap-around is the code's, not hidden. -/
 def wrap64 (n : Nat) : Nat := n % 18446744073709551616
 
+/-- Go `n - 1` on a `uint64` (wraps at 0). -/
+def decU64 (n : Nat) : Nat := (n + 18446744073709551615) % 18446744073709551616
+
 /-- `sdk.Uint64ToBigEndian` (of `n % 2^64`). -/
 def be64 (n : Nat) : Bytes :=
   [ UInt8.ofNat (n / 72057594037927936 % 256), UInt8.ofNat (n / 281474976710656 % 256),
